@@ -317,6 +317,14 @@ def run(chk, repo, tier):
     sqrt_fq2(chk, repo, w)
     encoders(chk, repo, w)
     byte_helpers(chk, repo, w)
+    # the decoders compare and negate field objects (y, -y, the root test): C08's obligations for the two classes they use
+    chk.rule("C11.R4", "the field objects the codec builds and compares are canonical: operators of optimized_bls12_381_FQ / FQ2 store "
+                       "reduced values and == is exact (C08 re-stated for these two classes)", 30)
+    from ..fieldcheck import FieldSubject, run_fq, run_fqp
+    for qn in ("py_ecc.fields.optimized_bls12_381_FQ", "py_ecc.fields.optimized_bls12_381_FQ2"):
+        S = FieldSubject(w, repo.cls(qn))
+        for key, ok, det, where in (run_fq(S) if S.kind == "FQ" else run_fqp(S)):
+            chk.ob("C11.R4", qn, f"[C08] {key}", ok, det, where)
 
 
 # ---------------------------------------------------------------------------
